@@ -102,14 +102,16 @@ def long_phase(run, bins):
     weight is the optimum known by construction."""
     rng = run.rng
     n_ok = 0; lines = []; specs = []
-    for n in ([258, 300, 513, 1030] if run.thorough else [258, 520]):
+    for n in ([259, 300, 513, 1030, 2051] if run.thorough else [300, rng.choice([520, 1030])]):
         w_chain = rng.choice([0, 0, 1])
         ops = [(0, 100 + i, 0, 0) for i in range(n)]
         edges = {}
         for i in range(n - 1):
             edges[(i, i + 1)] = w_chain
         # heavier short-cuts: from 0 to the end, and from a middle node to the end
-        sc1 = w_chain * (n - 1) + rng.choice([1, 2, 7]); mid = rng.randrange(1, n - 2)
+        # the end-to-end short-cut is heavier by exactly 1 (the tightest margin: any cost function that lets the number of edges
+        # outweigh one unit of weight on a path this long picks the short-cut)
+        sc1 = w_chain * (n - 1) + 1; mid = rng.randrange(1, n - 2)
         sc2 = w_chain * (n - 1 - mid) + rng.choice([1, 3])
         edges[(0, n - 1)] = sc1; edges[(mid, n - 1)] = sc2
         items = list(edges.items()); rng.shuffle(items)
